@@ -117,7 +117,7 @@ func genParams(t *rapid.T) params {
 	p.G = rapid.IntRange(2, 64).Draw(t, "G")
 	p.PerG = rapid.IntRange(1, 12).Draw(t, "perG")
 	p.Layout = rapid.SampledFrom([]string{"TextLayout", "JSONLayout"}).Draw(t, "layout")
-	p.Path = rapid.SampledFrom([]string{"builtin", "logger+console", "logger+console", "logger+layout+console", "consolelogger", "logger+file", "filelogger", "logger+rolling", "logger+layout+file"}).Draw(t, "path")
+	p.Path = rapid.SampledFrom([]string{"builtin", "logger+console", "logger+console", "logger+layout+console", "consolelogger", "logger+file", "filelogger", "logger+rolling", "logger+layout+file", "rollinglogger", "rollinglogger+layout"}).Draw(t, "path")
 	p.BufCap = rapid.SampledFrom([]string{"10KB", "10KB", "1KB", "2KB"}).Draw(t, "bufferCap")
 	capBytes := map[string]int{"10KB": 10240, "1KB": 1024, "2KB": 2048}[p.BufCap]
 	n := rapid.IntRange(1, 4).Draw(t, "nsizes")
@@ -176,6 +176,16 @@ func (p params) config(dir string) map[string]string {
 		m[lg+"fileDir"] = dir
 		m[lg+"fileName"] = "c03.log"
 		m[lg+"layout.type"] = p.Layout
+	case "rollinglogger", "rollinglogger+layout":
+		m["appender.unused.type"] = "Discard"
+		m[lg+"type"] = "RollingFile"
+		m[lg+"fileDir"] = dir
+		m[lg+"fileName"] = "c03.log"
+		m[lg+"rotation"] = "1s"
+		m[lg+"async"] = "false"
+		if p.Path == "rollinglogger+layout" {
+			m[lg+"layout.type"] = p.Layout
+		}
 	case "logger+rolling":
 		m["appender.a.type"] = "RollingFile"
 		m["appender.a.fileDir"] = dir
@@ -201,10 +211,20 @@ type event struct {
 
 var fixedTime = time.Date(2026, 1, 2, 3, 4, 5, 678000000, time.UTC)
 
+type evKey struct{}
+
+// eventTime: an event's timestamp is derived from g and seq and handed to the library through the
+// TimeNow hook and the call's context. A few distinct milliseconds are in flight at any moment,
+// each shared by events of several goroutines (bursts share a millisecond in real use too), and
+// the second moves on every 50 events.
+func eventTime(e event) time.Time {
+	return fixedTime.Add(time.Duration((e.g+e.seq)%4)*time.Millisecond + time.Duration(e.seq/50)*time.Second)
+}
+
 //go:noinline
 func logOne(e event) {
 	// nested containers first (the text layout hands them to an embedded JSON encoder), then the self-validating scalars
-	log.Info(context.Background(), tag, log.Ints("pre", []int{e.g, e.seq}), log.Object("obj", log.Int("g", e.g), log.Strings("s", []string{"x"})),
+	log.Info(context.WithValue(context.Background(), evKey{}, e), tag, log.Ints("pre", []int{e.g, e.seq}), log.Object("obj", log.Int("g", e.g), log.Strings("s", []string{"x"})),
 		log.Int("g", e.g), log.Int("seq", e.seq), log.Int("len", len(e.fill)), log.String("fill", e.fill), log.Uint("crc", e.crc))
 }
 
@@ -289,7 +309,12 @@ func runCase(p params, dir string) error {
 	log.Destroy()
 	sink := &slowSink{chunk: p.Chunk, pause: time.Duration(p.PauseUS) * time.Microsecond, yield: p.Yield}
 	log.Stdout = sink
-	log.TimeNow = func(context.Context) time.Time { return fixedTime }
+	log.TimeNow = func(ctx context.Context) time.Time {
+		if e, ok := ctx.Value(evKey{}).(event); ok {
+			return eventTime(e)
+		}
+		return fixedTime
+	}
 	defer func() { log.TimeNow = nil }()
 	if p.Path != "builtin" {
 		if err := log.Refresh(p.config(dir)); err != nil {
@@ -322,7 +347,7 @@ func runCase(p params, dir string) error {
 	var wg sync.WaitGroup
 	start := make(chan struct{})
 	var stopAt time.Time
-	if p.Path == "logger+rolling" {
+	if p.Path == "logger+rolling" || strings.HasPrefix(p.Path, "rollinglogger") {
 		// aim the concurrent phase at a real rotation boundary: begin just before the next second
 		// and keep logging (repeating the goroutine's event list with fresh sequence numbers) until
 		// the boundary has passed
@@ -406,7 +431,7 @@ func runCase(p params, dir string) error {
 			concOnly = append(concOnly, l)
 		}
 	}
-	if !p.fileSink() || p.Path != "logger+rolling" {
+	if !p.fileSink() || !strings.Contains(p.Path, "rolling") {
 		if d := multisetDiff(concOnly, seqOnly); d != "" {
 			return fmt.Errorf("the concurrent output is not the multiset of the events' own lines: %s", d)
 		}
